@@ -356,7 +356,7 @@ pub mod prim {
         pub children: Vec<ItemRef>,
         pub parent_of: Ghost<Map<usize, Option<usize>>>,
         pub has_doctype: Ghost<bool>,   // the child list already holds a document type declaration
-        pub has_element: Ghost<bool>,   // the child list already holds the document element
+        pub root: Ghost<Option<usize>>, // the handle (= id) of the document element the child list holds, if any
     }
     impl XmlDocument {
         pub fn id(&self) -> (r: usize) ensures r == self.ident { self.ident }
@@ -369,7 +369,10 @@ pub mod prim {
         #[verifier::external_body]
         pub fn document_declaration(&self) -> (r: Option<usize>) ensures r is Some <==> self.has_doctype@ { unimplemented!() }
         #[verifier::external_body]
-        pub fn document_element(&self) -> (r: error::Result<usize>) ensures r is Ok <==> self.has_element@ { unimplemented!() }
+        pub fn document_element(&self) -> (r: error::Result<usize>) ensures r is Ok <==> self.root@ is Some, r is Ok ==> r->Ok_0 == self.root@->Some_0 { unimplemented!() }
+        // Rc::ptr_eq on two element handles: the same item
+        #[verifier::external_body]
+        pub fn same_handle(a: usize, b: usize) -> (r: bool) ensures r == (a == b) { unimplemented!() }
         #[verifier::external_body]
         pub fn world_remove_from_parent(&mut self, value: &ItemRef)
             ensures final(self).ident == old(self).ident,
@@ -504,14 +507,17 @@ def build():
                     'nested helper: &XmlDocument mutated through RefCell -> &mut (A4), Rc<XmlItem> -> ItemRef, world edits on `doc`; its contract is spliced here (specification only)'),
                Rule('R43', r'value\.remove_from_parent\(\);', 'self.world_remove_from_parent(&value);', 'outside the helper the shared world is the receiver'),
                Rule('R43', r'value\.set_parent_id\(Some\(self\.id\(\)\)\);', 'let __me = self.id(); self.world_set_parent_id(&value, Some(__me));', 'same'),
-               Rule('R44', r'match &\*value \{', 'match value.item() {', 'deref of Rc<XmlItem> -> accessor of the environment handle')],
-        requires=[('reference_child_exists_and_is_not_the_value', 'id is Some ==> id->Some_0 != value.ident && ids(old(self).children@).contains(id->Some_0)')],
+               Rule('R44', r'match &\*value \{', 'match value.item() {', 'deref of Rc<XmlItem> -> accessor of the environment handle'),
+               Rule('R49', r'self\.document_element\(\)\.is_ok_and\(\|root\| !Rc::ptr_eq\(&root, v\)\)', '(match self.document_element() { Ok(root) => !XmlDocument::same_handle(root, *v), Err(_) => false })',
+                    'Result::is_ok_and(closure) inlined by its definition; Rc::ptr_eq on two element handles -> same_handle (the same item)')],
+        requires=[('reference_child_exists_and_is_not_the_value', 'id is Some ==> id->Some_0 != value.ident && ids(old(self).children@).contains(id->Some_0)'),
+                  ('the_handle_of_an_element_item_is_its_id', 'value.item is Element ==> value.item->Element_0 == value.ident')],
         ensures=[('C13+C12:refused_call_changes_nothing', 'r is Err ==> final(self).children@ == old(self).children@ && final(self).parent_of@ == old(self).parent_of@'),
                  ('C13+C12:accepted_child_is_listed_once_under_this_parent', 'r is Ok ==> r->Ok_0 == value && ids(final(self).children@).contains(value.ident) && final(self).parent_of@[value.ident] == Some(old(self).ident)'),
                  ('C12:accepted_child_is_listed_exactly_once', 'r is Ok ==> (forall|i: int, j: int| 0 <= i < final(self).children@.len() && 0 <= j < final(self).children@.len()'
                   ' && #[trigger] ids(final(self).children@)[i] == value.ident && #[trigger] ids(final(self).children@)[j] == value.ident ==> i == j)'),
                  ('C12:at_most_one_document_element_and_one_document_type',
-                  '(value.item is Element && old(self).has_element@ ==> r is Err) && (value.item is DocumentType && (old(self).has_doctype@ || old(self).has_element@) ==> r is Err)'),
+                  '(value.item is Element && old(self).root@ is Some && old(self).root@ != Some(value.ident) ==> r is Err) && (value.item is DocumentType && (old(self).has_doctype@ || old(self).root@ is Some) ==> r is Err)'),
                  ('C13:only_comments_pis_one_doctype_and_one_element_are_children_of_a_document',
                   'r is Ok ==> (value.item is Comment || value.item is PI || value.item is Element || value.item is DocumentType)')],
         inject=[(r'let index = doc\.child_index\(id\)\.unwrap\(\);', 'proof { lemma_filter_keeps_items(old(doc).children@, value.ident, Some(id)); }', 'before'),
